@@ -5,7 +5,7 @@ from __future__ import annotations
 from ..hostir import HostInterp
 from ..report import Finding
 from ..rules.world import array_key
-from ..terms import T, affine, show, subterms
+from ..terms import T, affine, affine_alternatives, show, subterms
 from . import common
 
 ADR = {"Model.actuator_historyadr": "actuator", "Model.sensor_historyadr": "sensor"}
@@ -16,6 +16,19 @@ WRITERS_OK = ("history.",)
 def _fname(lc, root):
   spec = lc.field(root)
   return f"{spec.owner}.{spec.path}" if spec is not None else ""
+
+
+def _mask_phi_summands(t):
+  """Replace every phi reached through +, - and int() casts by an opaque position atom (its inner constants are wrap
+  arithmetic); everything else is kept, so the affine normal form of the result has the constants of the static base."""
+  if isinstance(t, T):
+    if t.op == "phi":
+      return T("pos", t)
+    if t.op == "bin" and t.args[0] in ("+", "-"):
+      return T("bin", t.args[0], _mask_phi_summands(t.args[1]), _mask_phi_summands(t.args[2]))
+    if t.op == "call" and t.args[0] in ("int", "wp.int32", "wp.int64") and len(t.args) == 2:
+      return _mask_phi_summands(t.args[1])
+  return t
 
 
 def run(db, res, tier):
@@ -35,33 +48,63 @@ def run(db, res, tier):
         continue
       n += 1
       kernels.add(lc.name)
-      af = affine(a.idx[1])
-      offs, ns, rest = [], [], []
-      for atom, c in af.coef.items():
-        if atom.op == "ld" and _fname(lc, atom.args[0]) in ADR:
-          offs.append((atom, c))
-        elif atom.op == "idx" and isinstance(atom.args[0], T) and atom.args[0].op == "ld" and _fname(lc, atom.args[0].args[0]) in NSAMP and atom.args[1:] == (T("c", 0),):
-          ns.append((atom, c))
-        else:
-          rest.append((atom, c))
       cons = f"{lc.name}|history|{a.kind[0]}"
       form = f"history[{show(a.idx[1])[:80]}]"
-      ok = len(offs) == 1 and offs[0][1] == 1
-      why = "the index is not based at exactly one *_historyadr[element]" if not ok else ""
-      if ok:
-        off = offs[0][0]
-        fam = ADR[_fname(lc, off.args[0])]
-        elem = off.args[1:]
-        if len(ns) > 1 or (ns and (ns[0][1] != 1 or NSAMP[_fname(lc, ns[0][0].args[0].args[0])] != fam or ns[0][0].args[0].args[1:] != elem)):
-          ok, why = False, "the sample count n is not the same element's *_history[element][0] with coefficient 1"
-        elif af.const not in (0, 1, 2):
-          ok, why = False, f"constant offset {af.const} is not one of user(+0) / cursor(+1) / times(+2)"
-        elif af.const in (0, 1) and (ns or rest):
-          ok, why = False, f"the {'user' if af.const == 0 else 'cursor'} slot is a single cell at +{af.const}; extra terms {[show(x)[:30] for x, _ in ns + rest]}"
-        elif ns and af.const != 2:
-          ok, why = False, f"values start at +2+n, found +{af.const}+n"
-        elif any(c < 0 for _, c in rest):
-          ok, why = False, "negative offset term"
+      ok, why = True, ""
+      af = None
+      ns = []
+      # The index is split into a static base (constants, *_historyadr loads, sample counts n) and ring positions.
+      # A phi SUMMAND (`values_offset + phys_lo`, phys_lo = p-1 or p-1+n) is a position: constants and multiples of n
+      # inside it belong to the wrap-around arithmetic, not to the section base. When the WHOLE index is a phi (an
+      # address hoisted out of a branch, `adr_lo = adr_hi - dim (+ n*dim)`) base and wrap constants cannot be told
+      # apart: every alternative is still required to be based at one *_historyadr, its section constant is not decided.
+      masked = affine(_mask_phi_summands(a.idx[1]))
+      # the base itself sits inside a phi (hoisted address, possibly `+ d` afterwards): fall back to the alternatives
+      top_phi = not any(atom.op == "ld" and _fname(lc, atom.args[0]) in ADR for atom in masked.coef)
+      alts = affine_alternatives(a.idx[1]) if top_phi else [masked]
+      for af in alts:
+        offs, ns, rest = [], [], []
+        for atom, c in af.coef.items():
+          if atom.op == "ld" and _fname(lc, atom.args[0]) in ADR:
+            offs.append((atom, c))
+          elif atom.op == "idx" and isinstance(atom.args[0], T) and atom.args[0].op == "ld" and _fname(lc, atom.args[0].args[0]) in NSAMP and atom.args[1:] == (T("c", 0),):
+            ns.append((atom, c))
+          else:
+            rest.append((atom, c))
+        ok = len(offs) == 1 and offs[0][1] == 1
+        why = "the index is not based at exactly one *_historyadr[element]" if not ok else ""
+        if ok:
+          off = offs[0][0]
+          fam = ADR[_fname(lc, off.args[0])]
+          elem = off.args[1:]
+          if len(ns) > 1 or (ns and (ns[0][1] < 1 or NSAMP[_fname(lc, ns[0][0].args[0].args[0])] != fam or ns[0][0].args[0].args[1:] != elem)):
+            ok, why = False, "the sample count n is not the same element's *_history[element][0]"
+          elif top_phi:
+            pass
+          elif ns and ns[0][1] != 1:
+            ok, why = False, "the sample count n is not the same element's *_history[element][0] with coefficient 1"
+          elif af.const not in (0, 1, 2):
+            ok, why = False, f"constant offset {af.const} is not one of user(+0) / cursor(+1) / times(+2)"
+          elif af.const in (0, 1) and (ns or rest):
+            ok, why = False, f"the {'user' if af.const == 0 else 'cursor'} slot is a single cell at +{af.const}; extra terms {[show(x)[:30] for x, _ in ns + rest]}"
+          elif ns and af.const != 2:
+            ok, why = False, f"values start at +2+n, found +{af.const}+n"
+          elif any(c < 0 for _, c in rest):
+            ok, why = False, "negative offset term"
+        if not ok:
+          break
+      if ok and top_phi and len(alts) > 1:
+        # hoisted wrap-around: two alternatives of one address differ by the ring size in ADDRESS units. In a section whose
+        # position is scaled by a per-sample stride (`p * dim`) the ring is n*dim cells long, so a difference of a bare n
+        # wraps into the middle of the section (wrong sample / component).
+        def _is_n(x):
+          return isinstance(x, T) and x.op == "idx" and isinstance(x.args[0], T) and x.args[0].op == "ld" and _fname(lc, x.args[0].args[0]) in NSAMP
+        strided = any(isinstance(x, T) and x.op == "bin" and x.args[0] == "*" and not any(_is_n(y) for y in x.args[1:]) for x in alts[0].coef)
+        for other in alts[1:]:
+          diff = other - alts[0]
+          if strided and diff.const == 0 and diff.coef and all(_is_n(x) for x in diff.coef):
+            ok, why = False, "wrap-around steps by n cells in a section addressed with a per-sample stride (ring size is n*stride)"
+            break
       res.ob(ok, cons, Finding("R-LAYOUT.8", f"{lc.name}|history-index|{why[:60]}", f"{form}: {why}. Expected one of off+0 (user), off+1 (cursor), off+2+p (times), off+2+n+p*dim+d (values)", a.loc), sample={"kernel": lc.name, "const": af.const, "n_coef": ns[0][1] if ns else 0, "kind": a.kind} if n % 25 == 1 else None)
       if a.is_write:
         res.ob(lc.name.startswith(WRITERS_OK) or lc.name in set_state_kernels, f"{lc.name}|history-writer", Finding("R-LAYOUT.9", f"{lc.name}|history|unexpected-writer", "Data.history is written outside history.py / set_state", a.loc))
